@@ -8,7 +8,7 @@ import (
 )
 
 const ruleDirect = "generated hierarchy (1-4 roots trusted or not incl. v1 roots, 0-6 intermediates to depth 3 incl. cross-signed siblings, pre-issuers, non-CA signers, trusted intermediates; 8 key kinds x 7 signature algorithms; key identifiers absent / everywhere / per key) -> correct path (leaf, precert, malformed poison, CA as leaf, bare root) -> 0-2 perturbations {drop, cut, swap, dup, insert, append issuer, signature bit flip, re-sign by another key, truncate, sibling, bare root} x options {window start/limit at NotAfter -1s/0/+1s/+-1y, rejectExpired/rejectUnexpired with now at NotAfter -1s/-1ns/0/+1ns/+1s/+-1y, acceptOnlyCA, EKU filter}; ValidateChain verdict and returned path vs the linear reference predicate over pki ground truth; IsPrecertificate vs the generated poison kind. Non-trivial: a perturbation applied or an option off its default"
-const ruleHTTP = "same generator; the options go through LogConfig (reject_expired, reject_unexpired, not_after_start/limit, accept_only_ca, ext_key_usages incl. Any, reject_extensions) into an Instance; HTTP status of add-chain / add-pre-chain (matching endpoint 85 %) vs reference predicate AND leaf-kind rule; on 200 the path in the queued leaf / extra_data; on refusal no QueueLeaf. NotAfter >= 1 y before or >= 10 y after 2024-06-01 because the front end reads the wall clock"
+const ruleHTTP = "same generator; the options go through LogConfig (reject_expired, reject_unexpired, not_after_start/limit, accept_only_ca, ext_key_usages incl. Any, reject_extensions) into an Instance; HTTP status of add-chain / add-pre-chain (matching endpoint 92 %; 30 % of the cases with a history of 1-5 earlier submissions on the same Instance, each judged) vs reference predicate AND leaf-kind rule; on 200 the path in the queued leaf / extra_data; on refusal no QueueLeaf. NotAfter >= 1 y before or >= 10 y after 2024-06-01 because the front end reads the wall clock"
 
 var Direct = harness.Define(harness.Opts{Name: "direct", Rule: ruleDirect, Quick: 3000, Thorough: 10000, MaxSample: 2500}, genDirect, checkDirect)
 var HTTP = harness.Define(harness.Opts{Name: "http", Rule: ruleHTTP, Quick: 1500, Thorough: 5000, MaxSample: 2500}, genHTTP, checkHTTP)
